@@ -131,6 +131,8 @@ def run(ctx: Ctx) -> None:
     once_rule(ctx, pp_)
     addr_rule(ctx)
     lex_rule(ctx, ge)
+    from .c15 import tokenize_clause
+    tokenize_clause(ctx, ctx.rule("R04.tok", "every line is tokenised by the RISC-V grammar itself (nothing remembered across parsers or texts)"))
 
 
 def _hole_kind(e: ast.AST) -> str:
